@@ -106,6 +106,11 @@ def iter_oracle(script, impl):
             if out != 'ok':
                 probs.append('tx rejected: ' + out[:80])
             continue
+        if op == 'txmore':   # further writes in the same transaction: the write set as it is NOW is what later scans overlay
+            c.tx = list(c.tx or []) + [(ws[i], _kb(ws[i + 1]), _kb(ws[i + 2])) for i in range(2, len(ws) - 2, 3)]
+            if out != 'ok':
+                probs.append('txmore rejected: ' + out[:80])
+            continue
         adv = c.adversarial()
         if op == 'build':
             c.pos, c.prev_key = 'invalid', None
